@@ -14,5 +14,5 @@ Extraction "model.ml"
   api_str_trim_suffix api_opt_has api_take_while_ne api_defer_run
   api_mf_run api_c_run api_wh_trace api_expand api_abs
   api_xdg_home api_xdg_dirs api_getrids api_vfs_config_dir api_sym_mode api_revoking_mode
-  api_walk_vs_spec api_mfs_init api_mfs_step api_mfs_entries api_mfs_data api_files_list api_render_rpath api_wf_b api_mfs_of_lists api_mk_entry api_set_of_list api_rpath_of_string api_h_init api_hstep api_macro
+  api_walk_vs_spec api_ref_init api_ref_step api_ref_of api_tree_list api_mfs_init api_mfs_step api_mfs_entries api_mfs_data api_files_list api_render_rpath api_wf_b api_mfs_of_lists api_mk_entry api_set_of_list api_rpath_of_string api_h_init api_hstep api_macro
   w_follow w_min_depth w_max_depth w_sort_by_name w_dirs_first w_files_first w_contents_first w_dirs w_files w_maxdesc default_wopts.
